@@ -403,6 +403,42 @@ pub fn check_compat<W: Fam, R: Fam>(reg: &Registry, rep: &mut Report, seed: u64,
         (Ok((Err((false, msg)), _)), Projected::MissingValue) => viol(rep, "C10", &ty, "missing-error-class", format!("a missing mandatory field was reported as '{}'", msg), &bytes, &rp),
         (Ok((Ok(got), _)), Projected::MissingValue) => viol(rep, "C10", &ty, "missing-accepted", format!("a missing mandatory field was papered over: {:?}", got), &bytes, &rp),
     }
+    // fields unknown to the reader are ignored *whatever their content*: arbitrary items (nested
+    // indefinite containers, indefinite strings, half floats, tags, ...) injected at indices no
+    // version knows, into the top-level and every nested field container
+    if let Projected::Value(want) = &expect {
+        let marked = refschema::encode_type(reg, ws, &view, &EncOpts::default());
+        if refschema::strip(&marked).encode() == bytes {
+            let mut rng = Rng::derive("c10/unknown", seed, fnv64(ty.as_bytes()), i);
+            for round in 0..2 {
+                let mut n = 0u32;
+                let inj = refschema::inject_unknown(&marked, &mut rng, if round == 0 { 100 } else { 40 }, &mut n);
+                if n == 0 {
+                    continue;
+                }
+                let ib: Box<[u8]> = inj.encode().into_boxed_slice();
+                rep.eval();
+                let r = mon::guarded(|| {
+                    let mut d = Decoder::new(&ib);
+                    let r: Result<R::T<'_>, _> = d.decode();
+                    (r.map(|x| x.view()).map_err(|e| e.to_string()), d.position())
+                });
+                match r {
+                    Err(p) => viol(rep, "C10", &ty, "unknown-fields-panic", p.message, &ib, &rp),
+                    Ok((Err(e), _)) => viol(rep, "C10", &ty, "unknown-fields-rejected", format!("with {} unknown fields of arbitrary content added the reader fails with '{}'", n, e), &ib, &rp),
+                    Ok((Ok(got), pos)) => {
+                        if &got != want {
+                            viol(rep, "C10", &ty, "unknown-fields-value", format!("with {} unknown fields added the reader obtained {:?} instead of {:?}", n, got, want), &ib, &rp)
+                        } else if pos != ib.len() {
+                            viol(rep, "C10", &ty, "unknown-fields-position", format!("with {} unknown fields added the reader stopped at {} of {}", n, pos, ib.len()), &ib, &rp)
+                        } else {
+                            rep.count("C10/unknown fields of arbitrary content ignored");
+                        }
+                    }
+                }
+            }
+        }
+    }
     // nested: the evolved type inside other containers with a sibling after it
     if let Projected::Value(want) = &expect {
         let sib = 0x0102_0304u32 ^ (i as u32);
